@@ -522,6 +522,86 @@ def count_replaced(data) -> int:
     return k
 
 
+class LocalRuntime:
+    """A RuntimeHandle that runs every mapped task in this process, in order (passes only use
+    `get_runtime().map`).  Used for DIAGNOSIS only: to tell a pass that raises (a defect of the
+    code: under the attached runtime it shows as 'Server connection unexpectedly closed') from a
+    runtime lost to another process of this shared machine."""
+
+    async def map(self, fn, *args, **kwargs):
+        import inspect
+        kwargs.pop('log_context', None)
+        kwargs.pop('task_name', None)
+        out = []
+        for a in zip(*args):
+            r = fn(*a, **kwargs)
+            if inspect.isawaitable(r):
+                r = await r
+            out.append(r)
+        return out
+
+    async def submit(self, fn, *args, **kwargs):
+        import inspect
+        kwargs.pop('log_context', None)
+        kwargs.pop('task_name', None)
+        r = fn(*args, **kwargs)
+        if inspect.isawaitable(r):
+            r = await r
+        return r
+
+    def get_cache(self):
+        return {}
+
+
+def run_in_process(j: dict, inp, model, timeout: int = 240):
+    """What compile() does for one input (compile.py: build_workflow, the input circuit per
+    input kind, the mappings read from the pass data), executed without a runtime."""
+    import asyncio
+    import bqskit.runtime.worker as rw
+    from bqskit.compiler.compile import build_workflow
+    from bqskit.compiler.passdata import PassData
+    from bqskit.ir.circuit import Circuit
+    from bqskit.qis.unitary.unitarymatrix import UnitaryMatrix
+    from harness.pipe_rt import alarm
+    wf = build_workflow(inp, model, j['level'], EPS, j['ms'], j['thr'], 8,
+                        j['cseed'])
+    if isinstance(inp, Circuit):
+        c = inp.copy()
+    elif isinstance(inp, UnitaryMatrix):
+        c = Circuit.from_unitary(inp)
+    else:
+        c = Circuit(inp.num_qudits, inp.radixes)
+    d = PassData(c)
+    old = rw._worker
+    rw._worker = LocalRuntime()
+    try:
+        with warnings.catch_warnings(), alarm(timeout):
+            warnings.simplefilter('ignore')
+            asyncio.run(wf.run(c, d))
+    finally:
+        rw._worker = old
+    return c, list(d.initial_mapping), list(d.final_mapping), d
+
+
+def diagnose_lost(res: dict, log) -> str | None:
+    """A job under which the runtime disappeared three times: does one of its passes raise?"""
+    from harness.pipe_rt import JobTimeout
+    j = res['job']
+    for inp in res['inputs']:
+        try:
+            run_in_process(j, inp, res['model'])
+        except JobTimeout:
+            return None
+        except Exception as e:
+            tb = traceback.extract_tb(e.__traceback__)
+            site = next((f'{Path(f.filename).name}:{f.name}'
+                         for f in reversed(tb) if '/bqskit/' in f.filename),
+                        '?')
+            log(f"  {j['tag']}: raises in-process: {type(e).__name__} at {site}")
+            return f'{type(e).__name__}: {e} [at {site}]'[:500]
+    return None
+
+
 def run_batch(ck: Check, jobs: list[dict], workers: int, log) -> list[dict]:
     """Run the jobs on ONE shared real runtime.  Inputs are built before the runtime is
     started; oracles are evaluated after it is closed."""
@@ -592,8 +672,11 @@ def run_batch(ck: Check, jobs: list[dict], workers: int, log) -> list[dict]:
                         # fixed ports, or this job takes the server down.  Restart and retry;
                         # a job that loses the runtime three times is set aside.
                         attempts[j['tag']] = attempts.get(j['tag'], 0) + 1
-                        if attempts[j['tag']] >= 3:
+                        if attempts[j['tag']] >= 3 or (
+                                attempts[j['tag']] >= 2
+                                and j['expect'] == 'raises'):
                             res['exc'] = 'RUNTIME-LOST: ' + res['exc']
+                            res['lost'] = True
                             results.append(res)
                             todo.pop(0)
                         restarts += 1
@@ -608,6 +691,9 @@ def run_batch(ck: Check, jobs: list[dict], workers: int, log) -> list[dict]:
                              'runtimes?)')
     log(f'batch: {len(results)} compile() calls in {time.time() - t_all:.0f}s,'
         f' {restarts} runtime restarts')
+    for res in results:
+        if res.get('lost'):
+            res['in_process'] = diagnose_lost(res, log)
     return results
 
 
@@ -936,7 +1022,8 @@ def oracle_c03(ck: Check, res: dict, inp, out, K: int, idx: int, emit):
     if isinstance(inp, StateSystem):
         worst = 0.0
         phases = []
-        for vin, vout in inp.system.items():
+        for vin in inp:
+            vout = inp[vin]
             got = V.numpy @ vin.numpy
             ov = np.vdot(vout.numpy, got)
             phases.append(ov)
@@ -1219,8 +1306,23 @@ def evaluate(ck: Check, results: list[dict], pid: str, log):
                 # cause is re-observed in-process by probe_qutrit_sq below
                 continue
             if res['exc'].startswith('RUNTIME-LOST'):
-                # not a verdict: the runtime disappeared three times under this job
-                lost_jobs.append(j['tag'])
+                if 'in_process' not in res:
+                    res['in_process'] = diagnose_lost(res, log)
+                if res.get('in_process'):
+                    # one of the job's passes raises (reproduced without any runtime); under
+                    # the attached runtime that exception takes the server down
+                    w = res['inputs'][0].num_qudits
+                    emit('C03' if j['kind'] != 'circuit' else 'C01',
+                         f"compile-raises:{j['kind']}:w{w}:"
+                         f"{j['model']['gates']}:L{j['level']}:"
+                         f"{res['in_process'].split(':')[0]}",
+                         'compile() fails on a supported input: a pass raises '
+                         + res['in_process'] + ' (reproduced in-process without '
+                         'a runtime; with the attached runtime the client sees '
+                         '"Server connection unexpectedly closed")', res, 0)
+                else:
+                    # not a verdict: the runtime disappeared three times under this job
+                    lost_jobs.append(j['tag'])
                 continue
             if len(res['inputs']) > 1:
                 emit('C03', f"c03-list-input-raises:{j['kind']}:"
